@@ -84,7 +84,8 @@ def forN : Nat → (Nat → Out) → Out
 def rd (s : Site) (len i : Nat) : Out := if i < len then .ok else .fault (.oob s len i)
 def vla (s : Site) (n : Nat) : Out := if 0 < n then .ok else .fault (.vlaBound s n)
 def throwIf (c : Bool) (e : Err) : Out := if c then .reject e else .ok
-def Out.when (c : Bool) (x : Out) : Out := if c then x else .ok
+/- `macro_inline`: the compiled driver must not evaluate a skipped block (a skipped loop may be astronomically long) -/
+@[macro_inline] def Out.when (c : Bool) (x : Out) : Out := if c then x else .ok
 
 def U64 : Nat := 2^64
 def U32 : Nat := 2^32
